@@ -34,7 +34,7 @@ class Resolver:
         self.calls.append((str(qname), str(rdtype), args, dict(kw)))
         self.world.log("dns.query", str(qname), str(rdtype))
         out = []
-        if self.fail_first > 0:
+        if self.fail_first > 0 and self.fail_kind < 2:
             # resolver fault: the first queries time out / find nothing, later ones are answered
             self.fail_first -= 1
             self.world.stats["dns_fault"] += 1
@@ -71,6 +71,16 @@ class Resolver:
     ttl = 300
 
     async def aresolve(self, qname, rdtype="A", *a, **kw):
+        if self.fail_kind >= 2 and self.fail_first > 0:
+            # fault on the asynchronous path only: this event loop cannot give dnspython a datagram endpoint (an exotic loop
+            # implementation, a sandbox); the blocking resolver would work
+            self.fail_first -= 1
+            self.calls.append((str(qname), str(rdtype), a, dict(kw)))
+            self.world.stats["dns_fault"] += 1
+            self.world.stats["dns_async_backend_fault"] += 1
+            import dns.asyncbackend
+
+            raise NotImplementedError("no datagram endpoint on this event loop") if self.fail_kind == 2 else dns.asyncbackend.AsyncLibraryNotFoundError("no async library detected")
         if self.latency_s:
             import asyncio
 
@@ -173,7 +183,7 @@ def run(case) -> dict:
     probes_extra: t.Dict[str, int] = {}
     world = W.World(len(idxs))
     for fl in ("sync", "async"):
-        res = Resolver(world, records, fail_first=fails, fail_kind=len(idxs) % 2)
+        res = Resolver(world, records, fail_first=fails, fail_kind=(case[6] if len(case) > 6 else len(idxs) % 2))
         with world.installed(resolver=res, patch_entropy=False):
             if earlier:
                 # the DNS data changed since an earlier lookup (weights / priorities were re-balanced)
@@ -215,6 +225,8 @@ def run(case) -> dict:
         c = calls[fl]
         if fails:
             probes_extra["after_resolver_fault"] = 1
+            if len(case) > 6:
+                probes_extra["async_backend_fault"] = 1
         if len(c) != 1 or c[0][0] != want_q or c[0][1].upper() != "SRV" or c[0][3].get("search") is not True:
             viol = V(fl, "query", f"resolver was asked {c}, expected one SRV query for {want_q} with search=True")
             break
@@ -252,12 +264,12 @@ class C20(common.Check):
             "length 5 = 1.9 M exhaustively in thorough, sampled in quick), each through lookup_dc and async_lookup_dc; answers of 2..3 records in which "
             "several records name the same host (all host assignments); resolver faults (the first 1..2 queries time out or return NXDOMAIN and "
             "the caller repeats the lookup in the same process); the same name looked up twice while the answer set changed in between; bursts of 2..9 async lookups in flight at once on one "
-            "event loop and then again on a second event loop of the same process; a lookup after the lookup of another name (an absolute one with trailing dot, none, another domain); a lookup after a call whose connection to the selected DC was refused; target host names in lower case, mixed case and with IDNA A-labels (xn--) must come back as the record spells them; records are real dnspython Answer objects whose TTL runs out between two lookups; the client host's own DNS suffix differs from the AD domain. Non-trivial = more than "
+            "event loop and then again on a second event loop of the same process; a fault of the asynchronous resolver backend only (NotImplementedError / no async library) before the caller's retry; a lookup after the lookup of another name (an absolute one with trailing dot, none, another domain); a lookup after a call whose connection to the selected DC was refused; target host names in lower case, mixed case and with IDNA A-labels (xn--) must come back as the record spells them; records are real dnspython Answer objects whose TTL runs out between two lookups; the client host's own DNS suffix differs from the AD domain. Non-trivial = more than "
             "one record or a trailing-dot target; distinct = distinct (sequence, domain).")
     components = {"selection code": "real (dpapi_ng._dns lookup_dc / async_lookup_dc / _get_highest_answer)", "resolver": "stub node returning real dnspython SRV rdata",
                   "async runtime": "simulated loop"}
     assumptions = ["no DNS wire format is simulated: dnspython is a dependency, not the system under test", "ties between equal (priority, weight) records are not judged beyond sync == async"]
-    required_fired = ("trailing_dot", "relative_target", "ties", "dns_reorder", "repeated_target", "after_resolver_fault", "dns_fault", "after_earlier_lookup", "async_bursts", "after_connection_failure", "idna_a_label_target", "mixed_case_target", "after_lookup_of_another_name")
+    required_fired = ("trailing_dot", "relative_target", "ties", "dns_reorder", "repeated_target", "after_resolver_fault", "dns_fault", "after_earlier_lookup", "async_bursts", "after_connection_failure", "idna_a_label_target", "mixed_case_target", "after_lookup_of_another_name", "async_backend_fault")
 
     def exhaustive(self, tier):
         return True
@@ -283,6 +295,10 @@ class C20(common.Check):
         rng0 = prng.stream(seed, "C20", "faults")
         for _ in range(3000 if tier == "quick" else 60000):
             out.append([[rng0.randrange(n) for _ in range(rng0.randint(1, 4))], rng0.choice(("corp.example", None, "")), None, rng0.randint(1, 2)])
+        # ... or only the asynchronous resolver path is broken (no datagram endpoint / no async library): the sync flavour is unaffected,
+        # the async one fails until the caller's retry finds the path working again
+        for _ in range(600 if tier == "quick" else 12000):
+            out.append([[rng0.randrange(n) for _ in range(rng0.randint(1, 4))], rng0.choice(("corp.example", None, "")), None, rng0.randint(1, 2), None, "same", rng0.choice((2, 3))])
         # the same name looked up twice in one process while the answer set changed in between
         for _ in range(4000 if tier == "quick" else 80000):
             a = [rng0.randrange(n) for _ in range(rng0.randint(1, 4))]
